@@ -13,16 +13,23 @@ PROPERTY = "C18"
 PRELOAD = ["scenic.core.serialization", "scenic.core.simulators", "scenic.core.vectors"]
 LEVEL = "other"
 EXPLANATION = (
-    "Bounded symbolic execution (CrossHair + z3) of the real value codecs, scene/replay header "
-    "readers and the replay divergence test: the encoded value, the truncation point, the "
-    "corrupted byte and its replacement, the header fields and the expected/actual dynamic values "
-    "are symbolic; every path's verification condition is discharged by z3 (unsat) within the "
-    "stated bounds; satisfiable ones are replayed concretely against the real code."
+    "Bounded symbolic execution (CrossHair + z3) of the real serialization code at three levels.  (1) Value codecs: "
+    "the encoded integer / bool / bytes / str, the truncation point, the corrupted byte and its replacement are "
+    "symbolic.  (2) Whole scenes: a corpus of programs (primitive distributions, derived values, multiplexers, "
+    "regions and vectors, mutation; each also after Scenario.conditionOn) is sampled with every random.* call "
+    "returning a symbolic value, the scene is written by Serializer.writeScene into a list-backed stream (floats "
+    "as opaque 8-byte blocks) and read back: every object property and parameter of the decoded scene equals the "
+    "original for all draws; every strict prefix is refused with SerializationError; any change to a header byte "
+    "is refused.  (3) Replay: a simulation whose behaviour draws Range / DiscreteRange / Uniform values at run time "
+    "is recorded and replayed with a different symbolic RNG: the replayed values equal the recorded ones and no "
+    "fresh randomness is consumed while the replay lasts; a longer run continues with fresh draws; a replay cut at "
+    "any byte is refused or continues, never crashes.  (4) Divergence: valuesHaveDiverged(scalar) <=> "
+    "|actual - expected| > tolerance over the reals.  Satisfiable conditions are replayed concretely."
 )
 MANIFEST_ENTRY = {
     "category": "other",
-    "text": "Bounded symbolic checking of the real codec, header and divergence code: for every value in the stated ranges, every truncation point and every single corrupted byte, z3 decides the round-trip / refusal / containment conditions on every execution path; divergence of either sign is decided over the reals. Not a proof: bounds on integer width and string length are stated in the evidence.",
-    "note": "Trusted: CrossHair's opcode-level symbolic execution, z3, the list-backed Stream stand-in for io.BytesIO, the struct '<d' opaque-block model, reals for floats. Outside: pickle fallback, 4-byte hash collisions, whole-scene encoding of mesh-valued samples.",
+    "text": "Bounded symbolic checking of the real codec, scene, replay and divergence code: for every value in the stated ranges, every truncation point and corrupted byte, every value of every random draw of the scene corpus (also after conditionOn) and of run-time draws during a recorded simulation, z3 decides the round-trip / refusal / equality conditions on every execution path; divergence of either sign is decided over the reals. Not a proof: bounds on integer width, string length, corpus and horizon are stated in the evidence.",
+    "note": "Trusted: CrossHair's opcode-level symbolic execution, z3, the list-backed Stream stand-in for io.BytesIO, the struct '<d' opaque-block model, reals for floats. Outside: pickle fallback, 4-byte hash collisions, scenes with mesh-valued or orientation-valued random properties, divergence of vector-valued properties, real simulators.",
 }
 ASSUMPTIONS = [
     "integers bounded per obligation (stated in bounds); byte strings and text of length <= 3",
@@ -312,6 +319,16 @@ def obligations(tier, seed):
                           "any change to the format version, program hash or options hash is refused",
                           {"byte": "any header byte", "new value": "0..255, different"}, enc_scene, [M.STRUCT_MODEL, "Stream"],
                           opts=dict(total_timeout=300.0, per_path_timeout=60.0), setup=_scene_setup("primitive-distributions", False)))
+    import scenic.core.simulators as simm
+
+    enc_replay = [simm.Simulation.initializeReplay, simm.Simulation.replayCanContinue, simm.Simulation.detectReplayEnd, simm.Simulation.recordSampledValue,
+                  simm.Simulation.replaySampledValue, dist.Distribution.__new__, S.Serializer.writeReplayHeader, S.Serializer.readReplayHeader, S.Serializer.atEnd]
+    for mode, desc in (("same-length", "a recorded simulation replays with the same run-time random values (Range / DiscreteRange / Uniform), drawing nothing fresh"),
+                       ("continue", "a replay run for one more step than recorded continues with fresh draws after reproducing the recorded ones"),
+                       ("truncated", "a replay cut at any byte is refused with SerializationError or continues past its end; never another exception")):
+        obs.append(Obligation(f"replay-runtime-draws[{mode}]", h_replay(mode), desc, {"steps": 2, "draws per step": 3, "values": "symbolic"}, enc_replay,
+                              ["random.* as symbolic draws", M.STRUCT_MODEL, "io.BytesIO / BufferedReader -> Stream", "DummySimulation with logging hooks"],
+                              opts=dict(total_timeout=300.0, per_path_timeout=60.0), setup=_replay_setup))
     return obs
 
 
@@ -534,5 +551,124 @@ def h_scene(name, conditioned, mode):
             except SerializationError:
                 outcome = "refused"
             ctx.check("scene-of-a-different-program-version-or-options-refused", outcome == "refused", field=which, byte=i)
+
+    return h
+
+
+# ------------------------------------------------------------------ replay of run-time random values
+# (the drawn values are not kept in behaviour locals: CrossHair deep-realises the object graph reachable from a
+#  scenario when the runtime calls list.remove(scenario), which would concretise them)
+REPLAY_PROGRAM = """
+behavior B():
+    while True:
+        _symx_log(('drawn', Range(0, 1), DiscreteRange(0, 3), Uniform(10, 20.5, 30)))
+        take _symx_action('a')
+ego = new Object at (0, 0), with name 'a0', with allowCollisions True, with requireVisible False, with behavior B()
+"""
+_REPLAY = {}
+
+
+def _replay_setup():
+    import scenic
+    from harness import dyn_common as D
+
+    class C:
+        pass
+
+    sc = scenic.scenarioFromString(REPLAY_PROGRAM, mode2D=True)
+    scene, _ = sc.generate(maxIterations=1, verbosity=0)
+    for _ in range(2):
+        D.reset(C(), {})
+        sim = D.simulator(None).simulate(scene, maxSteps=2, maxIterations=1, verbosity=0)
+        try:
+            D.simulator(None).simulate(scene, maxSteps=2, maxIterations=1, verbosity=0, replay=sim.getReplay())
+        except Exception:
+            pass
+    _REPLAY["scene"] = scene
+
+
+class _FakeIO:
+    """io as used by Serializer: BytesIO / BufferedReader over the list-backed Stream."""
+
+    class BufferedIOBase:
+        pass
+
+    @staticmethod
+    def BytesIO(data=b""):
+        return M.Stream(data)
+
+    @staticmethod
+    def BufferedReader(stream):
+        return stream
+
+
+def h_replay(mode):
+    def h(ctx):
+        import scenic.core.serialization as S
+        from harness import dyn_common as D
+        from scenic.core.serialization import SerializationError
+
+        scene = _REPLAY["scene"]
+        steps = 2
+
+        def draws():
+            return [e[1][1:] for e in D.LOG if isinstance(e[1], tuple) and e[1][0] == "drawn"]
+
+        class CountingRNG(SceneRNG):
+            calls = 0
+
+            def uniform(self, a, b):
+                type(self).calls += 1
+                return super().uniform(a, b)
+
+            def randint(self, a, b):
+                type(self).calls += 1
+                return super().randint(a, b)
+
+            def choices(self, *a, **k):
+                type(self).calls += 1
+                return super().choices(*a, **k)
+
+        saved = (struct.pack, struct.unpack, S.io)
+        struct.pack, struct.unpack = M.make_struct_model(ctx)
+        S.io = _FakeIO
+        try:
+            D.reset(ctx, {})
+            with _RNGPatched(SceneRNG(ctx)):
+                sim1 = D.simulator(None).simulate(scene, maxSteps=steps, maxIterations=1, verbosity=0)
+            first = draws()
+            data = sim1.getReplay()
+            extra = 1 if mode == "continue" else 0
+            if mode == "truncated":
+                cut = ctx.int("cut", 0, len(data) - 1)
+                n = 0
+                while n < len(data) - 1 and not (cut == n):
+                    n += 1
+                data = data[:n]
+            D.reset(ctx, {})
+            CountingRNG.calls = 0
+            try:
+                with _RNGPatched(CountingRNG(ctx)):
+                    sim2 = D.simulator(None).simulate(scene, maxSteps=steps + extra, maxIterations=1, verbosity=0, replay=data)
+                outcome = "completed" if sim2 is not None else "rejected"
+            except SerializationError:
+                outcome = "serialization-error"
+            second = draws()
+        finally:
+            struct.pack, struct.unpack, S.io = saved
+        if mode == "truncated":
+            ctx.check("truncated-replay-is-refused-or-continues-never-crashes", outcome in ("completed", "serialization-error"), outcome=outcome, cut=n)
+            # whatever was replayed before the cut equals the recording
+            for i, (a, b) in enumerate(zip(first, second)):
+                if i * 3 + 3 <= (len(first) * 3 - CountingRNG.calls if outcome == "completed" else 0):
+                    for j in range(3):
+                        ctx.check("values-replayed-before-the-cut-equal-the-recording", a[j] == b[j], step=i, value=j)
+            return
+        ctx.check("replay-completes", outcome == "completed", outcome=outcome)
+        ctx.check("one-set-of-draws-per-step", len(first) == steps and len(second) == steps + extra, first=len(first), second=len(second))
+        for i, (a, b) in enumerate(zip(first, second)):
+            for j in range(3):
+                ctx.check("replayed-run-time-random-value-equals-the-recorded-one", a[j] == b[j], step=i, value=["Range", "DiscreteRange", "Uniform"][j])
+        ctx.check("no-fresh-randomness-while-the-replay-lasts", CountingRNG.calls == 3 * extra, rng_calls=CountingRNG.calls, expected=3 * extra)
 
     return h
